@@ -19,7 +19,7 @@ EXPLANATION = (
 )
 OUTSIDE = [
     "generator finalisation timing on interpreters without reference counting (LambdaExpression.map abandoned early)",
-    "callers/partials outside the 4 x 4 generated pool; data other than small printed ints and short lists",
+    "callers/partials outside the 5 x 5 pool; data other than small printed ints and short lists",
 ]
 
 # ---- pools over the shared names a, b, c, k, z --------------------------------------------
@@ -28,12 +28,15 @@ CALLERS = [
     ("{% for a in (1..2) %}{% assign z = a %}{% endfor %}{% decrement c %}", "<{{ a }}{{ z }}{{ c }}{{ k }}>"),
     ("{% with a: 5, b: 6 %}", "<{{ a }}{{ b }}{{ z }}>{% endwith %}<{{ a }}{{ b }}>"),
     ("{% liquid\n assign a = x\n assign k = 9\n%}{% cycle 'p', 'q' %}", "<{{ a }}{{ k }}{{ z }}{% cycle 'p', 'q' %}>"),
+    # the invocation sits inside the caller's loops (second iteration of the inner one): loop state must not be reachable
+    ("{% assign a = 'L' %}{% for b in (1..3) %}{% for z in (4..5) %}{% if forloop.last and forloop.parentloop.first %}", "{% endif %}<{{ z }}{{ k }}{{ forloop.index }}>{% endfor %}{% endfor %}<{{ a }}{{ z }}{{ b }}>"),
 ]
 BODIES = [
     "({{ a }}{{ b }}{{ c }}{{ k }}{{ g }})",
     "({{ k }}{% assign a = 'P' %}{% assign z = 'Z' %}{% capture b %}Q{% endcapture %}{% increment c %}{{ a }}{{ b }}{{ c }}{{ z }})",
     "({% for a in (7..8) %}{{ a }}{{ forloop.parentloop.index }}{% endfor %}{{ a }}{{ forloop.index }}{% decrement c %})",
     "({% cycle 'p', 'q' %}{{ k | plus: g }}{% if a %}A{% endif %}{% unless z %}U{% endunless %})",
+    "({{ forloop.index }}{{ forloop.length }}{% for a in (7..8) %}{{ forloop.parentloop.index }}{{ forloop.parentloop.length }}{{ forloop.parentloop.parentloop.index }}{{ forloop.length }}{% endfor %})",
 ]
 
 ENV_PLAIN = Environment()
@@ -70,17 +73,17 @@ def _warm() -> None:
             _tpl(ENV_PLAIN, "{% macro m, k %}" + mbody + "{% endmacro %}" + pre + "[{% call m, x %}]" + post)
 
 
-MACRO_BODIES = [b.replace("forloop.parentloop.index", "forloop.index") for b in BODIES]
+MACRO_BODIES = list(BODIES)
 _warm()
 
 
 @cond(
-    pre=["0 <= ci < 4", "0 <= bi < 4", "0 <= x <= 3", "0 <= g <= 3"],
+    pre=["0 <= ci < 5", "0 <= bi < 5", "0 <= x <= 3", "0 <= g <= 3"],
     timeout=300,
-    shard={"ci": [0, 1, 2, 3], "bi": [0, 1, 2, 3]},
+    shard={"ci": [0, 1, 2, 3, 4], "bi": [0, 1, 2, 3, 4]},
     covers="{% render %}: the partial's region equals a stand-alone render of the partial with globals + arguments only (it cannot see the caller's assigned/captured/counted/loop-bound names), and the caller's later output equals the caller without the render tag (nothing the partial binds is visible)",
-    bounds="4 caller shapes x 4 partial bodies over the shared names a,b,c,k,z (assign, capture, increment/decrement, for, with, cycle, liquid); x, g printed ints 0..3; render inside a for loop",
-    grid=lambda: [(c, b, 1, 2) for c in range(4) for b in range(4)],
+    bounds="5 caller shapes x 5 partial bodies over the shared names a,b,c,k,z (assign, capture, increment/decrement, for, with, cycle, liquid, invocation inside nested caller loops with bodies reading forloop/parentloop); x, g printed ints 0..3",
+    grid=lambda: [(c, b, 1, 2) for c in range(5) for b in range(5)],
 )
 def d_render_iso(ci: int, bi: int, x: int, g: int) -> bool:
     pre, post = CALLERS[ci]
@@ -101,12 +104,12 @@ def d_render_iso(ci: int, bi: int, x: int, g: int) -> bool:
 
 
 @cond(
-    pre=["0 <= ci < 4", "0 <= bi < 4", "0 <= x <= 3", "0 <= g <= 3"],
+    pre=["0 <= ci < 5", "0 <= bi < 5", "0 <= x <= 3", "0 <= g <= 3"],
     timeout=300,
-    shard={"ci": [0, 1, 2, 3], "bi": [0, 1, 2, 3]},
+    shard={"ci": [0, 1, 2, 3, 4], "bi": [0, 1, 2, 3, 4]},
     covers="{% macro %}/{% call %}: the macro body sees only globals and its arguments; nothing it assigns, captures or counts is visible to the caller afterwards",
-    bounds="4 caller shapes x 4 macro bodies; x, g printed ints 0..3",
-    grid=lambda: [(c, b, 1, 2) for c in range(4) for b in range(4)],
+    bounds="5 caller shapes x 5 macro bodies (incl. invocation inside nested caller loops); x, g printed ints 0..3",
+    grid=lambda: [(c, b, 1, 2) for c in range(5) for b in range(5)],
 )
 def d_macro_iso(ci: int, bi: int, x: int, g: int) -> bool:
     pre, post = CALLERS[ci]
